@@ -505,6 +505,27 @@ func ruleBroadcastOrder(c *Ctx, r *R) {
 		} else {
 			before = cl.site.Block() == st.site.Block() && idxIn(cl.site) < idxIn(st.site)
 		}
+		if !before && cl.site == st.site && cl.in.Parent() != st.in.Parent() && cl.in.Parent().Parent() == fn {
+			// c.wake.replace(func(old) { close(old); return make(...) }) with replace doing g.v = f(g.v): the close happens
+			// inside the literal, the literal is called by the helper that stores - before the store when the helper's call of
+			// its function parameter comes first
+			h := st.in.Parent()
+			for _, in := range st.in.Block().Instrs {
+				if in == st.in {
+					break
+				}
+				if hc, isCall := in.(*ssa.Call); isCall {
+					if prm, isP := hc.Call.Value.(*ssa.Parameter); isP && prm.Parent() == h {
+						if site, isSite := st.site.(*ssa.Call); isSite {
+							idx := paramIndex(prm)
+							if idx >= 0 && idx < len(site.Call.Args) && resolveFuncValue(site.Call.Args[idx], 0) == cl.in.Parent() {
+								before = true
+							}
+						}
+					}
+				}
+			}
+		}
 		good = uncond(cl) && uncond(st) && before && closedUnderLock &&
 			deepLocks(fn, *cl).heldSuffix(muF, true) && deepLocks(fn, *st).heldSuffix(muF, true)
 	}
@@ -604,6 +625,27 @@ func ruleCondCapacity(c *Ctx, r *R) {
 		}
 	}
 	r.ok(nb && sends == 1, "xsync.ContextCond.Signal|non-blocking", sig.Pos(), "Signal must be a single non-blocking send on c.ch (it may be called with c.L held and with no waiter present)")
+	// ... attempted by EVERY Signal: a test in front of it ("a wake-up is already on its way") remembers something the channel
+	// does not - a Broadcast replaces the channel and with it the pending token, the flag stays set, and from then on Signal
+	// does nothing
+	uncond := true
+	why := ""
+	for _, cs := range condSends(c, sig) {
+		blocks := []*ssa.BasicBlock{cs.op.in.Block()}
+		for _, call := range cs.chain {
+			blocks = append(blocks, call.Block())
+		}
+		for _, b := range blocks {
+			for _, g := range guardsOf(b) {
+				if _, isSel := g.cond.(*ssa.Extract); isSel {
+					continue
+				}
+				uncond = false
+				why = path(g.cond)
+			}
+		}
+	}
+	r.ok(uncond, "xsync.ContextCond.Signal|every-signal-sends", sig.Pos(), "the send of Signal is attempted only under a condition ("+why+"): a Signal that skips the send because of state kept beside the channel is lost whenever that state and the channel disagree (after a Broadcast replaced the channel, or with two waiters parked)")
 	// the send happens while c.m is held: Broadcast closes the channel under the write lock, so a send on a snapshot taken
 	// before releasing c.m can hit a closed channel (panic) or wake nobody
 	_, _, muF := condOwner(c)
